@@ -498,3 +498,53 @@ func (e *Engine) dataKeyInventory() analysisResult {
 	res.Desc += fmt.Sprintf(" (%d call sites)", nsites)
 	return res
 }
+
+
+// mapRangeInventory: iteration over a Go map has no fixed order. Every `range` over a map in a repository
+// function reachable from the roots is listed; each must be allow-listed with the reason why the order cannot
+// show in the result (the entries are sorted afterwards, the body commutes, ...). A new iteration over a map
+// on the way from the patch and the file to the result is reported (C14: the result is the same on every run).
+func (e *Engine) mapRangeInventory(name string, roots []string, allowedIn []string) analysisResult {
+	res := analysisResult{Name: "inventory/maprange/" + name, OK: true,
+		Desc: fmt.Sprintf("no iteration over a map (unordered) in a repository function reachable from %s outside {%s}", shortList(roots), shortList(allowedIn))}
+	pred, missing := e.reachable(roots)
+	for _, m := range missing {
+		res.OK = false
+		res.Detail = append(res.Detail, "root function not found: "+m)
+	}
+	allowed := map[string]bool{}
+	for _, a := range allowedIn {
+		allowed[a] = true
+	}
+	var fns []*ssa.Function
+	for f := range pred {
+		fns = append(fns, f)
+	}
+	sort.Slice(fns, func(i, j int) bool { return fns[i].String() < fns[j].String() })
+	n := 0
+	for _, fn := range fns {
+		if !e.isRepoFn(fn) || fn.Blocks == nil {
+			continue
+		}
+		for _, b := range fn.Blocks {
+			for _, in := range b.Instrs {
+				r, ok := in.(*ssa.Range)
+				if !ok {
+					continue
+				}
+				if _, isMap := r.X.Type().Underlying().(*types.Map); !isMap {
+					continue
+				}
+				n++
+				if allowed[fn.String()] {
+					continue
+				}
+				pos := e.fset.Position(in.Pos())
+				res.OK = false
+				res.Detail = append(res.Detail, fmt.Sprintf("%s ranges over a map at %s:%d (iteration order is not fixed): %s", shortCallee(fn.String()), strings.TrimPrefix(pos.Filename, "/repo/"), pos.Line, chain(pred, fn)))
+			}
+		}
+	}
+	res.Desc += fmt.Sprintf(" (%d map iterations seen)", n)
+	return res
+}
